@@ -716,23 +716,33 @@ class MessageType:
         # kingdoms/{kingdom}/phyla/{phylum}
         # becomes the regex
         # ^kingdoms/(?P<kingdom>.+?)/phyla/(?P<phylum>.+?)$
+        # Special case for wildcard resource names
+        if self.resource_path == "*":
+            return "^.*$"
+
+        # We can't just use (?P<name>[^/]+) because segments may be
+        # separated by delimiters other than '/'.
+        # Multiple delimiter characters within one schema are allowed,
+        # e.g.
+        # as/{a}-{b}/cs/{c}%{d}_{e}
+        # This is discouraged but permitted by AIP4231
+        #
+        # `split` alternates the literal text with the captured variable
+        # names. The literal text is not regular expression syntax (a `.`
+        # delimiter must only match a `.`), so it is escaped.
+        pieces = self.PATH_ARG_RE.split(self.resource_path or "")
         parsing_regex_str = (
             "^"
-            + self.PATH_ARG_RE.sub(
-                # We can't just use (?P<name>[^/]+) because segments may be
-                # separated by delimiters other than '/'.
-                # Multiple delimiter characters within one schema are allowed,
-                # e.g.
-                # as/{a}-{b}/cs/{c}%{d}_{e}
-                # This is discouraged but permitted by AIP4231
-                lambda m: "(?P<{name}>.+?)".format(name=m.groups()[0]),
-                self.resource_path or "",
+            + "".join(
+                (
+                    "(?P<{name}>.+?)".format(name=piece)
+                    if index % 2
+                    else re.escape(piece)
+                )
+                for index, piece in enumerate(pieces)
             )
             + "$"
         )
-        # Special case for wildcard resource names
-        if parsing_regex_str == "^*$":
-            parsing_regex_str = "^.*$"
 
         return parsing_regex_str
 
